@@ -35,6 +35,26 @@ def gen_overlaps(ctx):
         lo, hi = max(a, c), min(b, d)
         out.append({"c1": c1, "c2": c2, "a": a, "b": b, "c": c, "d": d, "rev": rev, "lo": lo, "hi": hi, "n": n,
                     "kind": "overlap" if lo < hi else ("touch" if lo == hi else "disjoint")})
+    # directed: arcs that merely TOUCH, in all four end-to-end orientations, presented with DIFFERENT degrees (one side elevated once
+    # or twice): the end-point check of tangent boxes reads the last node of each arc (seed c20-5 used the wrong node count)
+    made, tries = 0, 0
+    while made < (12 if ctx.quick() else 200) and tries < 4000:
+        tries += 1
+        n = rng.randint(2, 4)
+        parent = [[F(rng.randint(-8, 8), 2) for _ in range(n + 1)] for _ in range(2)]
+        if not io.hodograph_halfplane(parent):
+            continue
+        a, m, d = F(rng.randint(0, 2), 8), F(rng.randint(3, 5), 8), F(rng.randint(6, 8), 8)
+        first_low = rng.random() < 0.5
+        (p, q), (c, dd) = ((a, m), (m, d)) if first_low else ((m, d), (a, m))
+        rev = rng.random() < 0.5
+        e1, e2 = rng.choice([(0, 1), (1, 0), (0, 2), (2, 0), (1, 2)])
+        c1 = io.elevate_rows(io.specialize_rows(parent, p, q), e1)
+        c2 = io.elevate_rows(io.specialize_rows(parent, dd, c) if rev else io.specialize_rows(parent, c, dd), e2)
+        if not all(F(float(x)) == x for r in c1 + c2 for x in r):
+            continue
+        made += 1
+        out.append({"c1": c1, "c2": c2, "a": p, "b": q, "c": c, "d": dd, "rev": rev, "lo": max(p, c), "hi": min(q, dd), "n": n, "kind": "touch"})
     return out
 
 
